@@ -18,7 +18,7 @@ RULE = ("request.url: full product of schemes {http,https,ws,wss} x servers (nam
         "keyed class) x queries, on both interfaces. replace(): URLs with a host (6 user-info shapes x 5 hosts x 3 ports) x every subset of <=3 of the 8 "
         "components x candidate values (passwords with '@', ':', '*'; IPv6 hosts). Query helpers on repeated keys. Non-trivial = non-default port, IPv6, "
         "Host header present, user-info involved, or >=2 components replaced; distinct = the full input tuple.")
-RULE += " Also: ports 0 / 80 / 443 under every scheme, server addresses without a port (ASGI), paths that begin with the root path, query keys that need encoding, components read through the URL object's own accessors as well as from its text, a second request object over a rewritten copy of (or the rewritten) environ / scope."
+RULE += " Also: ports 0 / 80 / 443 under every scheme, server addresses without a port (ASGI), paths that begin with the root path, query keys that need encoding, components read through the URL object's own accessors as well as from its text, a second request object over a rewritten copy of (or the rewritten) environ / scope. request.url taken, the environ / scope then rewritten in place by a later layer, the URL object read only afterwards (it describes the request as it was)."
 ASSUMPTIONS = [
     "generator domain = what a URL can represent: user names without ':@/?#[]', passwords without '/?#[]', replacement paths empty or starting with '/', host names compared case-insensitively, IPv6 hosts passed in brackets to replace()",
     "queries are UTF-8 text without '#' (undecodable query bytes belong to C12); a server address is always present",
@@ -120,6 +120,32 @@ def check_derived(ctx, rng):
         if got != exp:
             diff = sorted(k for k in exp if exp[k] != got[k])
             ctx.violation(f"request.url|stale-after-rewrite|{change}|{mode}|{iface}", case, f"expected {exp}, got {got} (differs: {diff})")
+    return case
+
+
+def check_url_held_across_a_rewrite(ctx, rng):
+    """request.url is taken (and not looked at yet); a later layer then rewrites the environ / scope in place (a mount shifting the
+    path, a proxy-fix setting scheme and host); the URL object held from before describes the request as it was when it was taken"""
+    from baize import asgi, wsgi
+    scheme, path, query, root, host = rng.choice(["http", "https"]), rng.choice(["/a", "/a/b", "/"]), rng.choice(["", "x=1"]), rng.choice(["", "/r"]), rng.choice(["h.example", "h.example:81"])
+    req = drivers.Req(path=path.encode(), root=root.encode(), query=query.encode(), headers=[("Host", host)], scheme=scheme, server=("srv", 8000))
+    case = {"url_taken_then_the_request_rewritten_in_place": {"scheme": scheme, "path": path, "query": query, "root": root, "host": host}}
+    eh, ep = expected_netloc(scheme, ("srv", 8000), host)
+    exp = {"scheme": scheme, "hostname": eh, "port": ep, "path": root + path, "query": query}
+    for iface in ("wsgi", "asgi"):
+        if iface == "wsgi":
+            d = drivers.to_environ(req)
+            u = wsgi.Request(d).url
+            d.update({"PATH_INFO": "/rewritten", "QUERY_STRING": "r=1", "HTTP_HOST": "rewritten.example:9", "wsgi.url_scheme": "https" if scheme == "http" else "http", "SCRIPT_NAME": "/rw"})
+        else:
+            d = drivers.to_scope(req)
+            d["scheme"] = scheme
+            u = asgi.Request(d).url
+            d.update({"path": "/rewritten", "query_string": b"r=1", "headers": [(b"host", b"rewritten.example:9")], "scheme": "https" if scheme == "http" else "http", "root_path": "/rw"})
+        got = {"scheme": u.scheme, "hostname": u.hostname, "port": u.port, "path": u.path, "query": u.query}
+        ctx.mon("url-held-across-a-rewrite")
+        if got != exp:
+            ctx.violation(f"request.url|changes-after-it-was-taken|{iface}", case, f"taken as {exp}, reads {got} after the rewrite")
     return case
 
 
@@ -390,6 +416,9 @@ def run(ctx):
     for i in range(ctx.scale(1500, 60_000)):
         case = check_derived(ctx, rng)
         ctx.case(repr(case))
+    for i in range(ctx.scale(200, 8000)):
+        case = check_url_held_across_a_rewrite(ctx, rng)
+        ctx.case(repr(case))
     ctx.sample("request-url", {"scheme": "https", "server": ("::1", 8000), "host": None, "root": "/r/é", "path": "/a b", "query": "a=1&b=%20"})
     # ---- two requests' URLs reconstructed at the same time by two server threads (placed thread switches, vf/inflight.py)
     from vf import inflight
@@ -463,6 +492,12 @@ def preempted_pair(ctx, pre, specs):
 
 
 def replay(ctx, case):
+    if "url_taken_then_the_request_rewritten_in_place" in case:
+        rng = ctx.rng("c18-replay")
+        for _ in range(50):
+            check_url_held_across_a_rewrite(ctx, rng)
+        ctx.case(1)
+        return
     if "preempted_pair" in case:
         from vf import inflight
         pre = inflight.Preemptor()
